@@ -113,6 +113,21 @@ fn structural() -> Vec<String> {
     v.push(format!("type T = {}number", "number | ".repeat(500)));
     v.push(format!("type T = {}number{}", "{".repeat(MAX_NEST), "}".repeat(MAX_NEST)));
     v.push(format!("return `{}`", "{x}".repeat(500)));
+    // strings long enough to be rewritten between long brackets, holding every combination of closing brackets
+    for mask in 0u32..16 {
+        for tail in ["", "]", "]=", "]]"] {
+            let mut text = String::from("a text that is long enough to be written between long brackets: ");
+            for (lvl, closer) in ["]]", "]=]", "]==]", "]===]"].iter().enumerate() {
+                if mask & (1 << lvl) != 0 {
+                    text.push_str(&format!("close {} then ", closer));
+                }
+            }
+            text.push_str("the end");
+            text.push_str(tail);
+            v.push(format!("return \"{}\"", text));
+            v.push(format!("local t = {{ [\"{}\"] = 1 }}\nreturn t[\"{}\"]", text, text));
+        }
+    }
     // every escape form, well-formed and malformed, in the three kinds of string (the reader of literals is code of
     // darklua itself, not of the parser dependency)
     for esc in [
@@ -369,7 +384,7 @@ impl Monitor for C12 {
         let st = structural();
         let i = index as usize;
         if i < st.len() {
-            return Some(json!({"kind": "parse", "class": "structural", "text": st[i], "also_process": i % 3 == 0}));
+            return Some(json!({"kind": "parse", "class": "structural", "text": st[i], "also_process": i % 3 == 0 || st[i].contains("long enough to be written between long brackets")}));
         }
         let i = i - st.len();
         let nseed = self.seeds.len().min(400);
